@@ -142,6 +142,11 @@ impl AlcCodec for AlcRS2m {
             })
             .unwrap_or(8);
 
+        // RFC 5510, m is the length of the finite field elements in bits
+        if !(2..=16).contains(&m) {
+            return Err(FluteError::new(format!("Invalid finite field size m={}", m)));
+        }
+
         let sbn = payload_id_header >> m;
         let esi_mask = (1u32 << m) - 1u32;
         let esi = payload_id_header & esi_mask;
